@@ -283,6 +283,21 @@ func clientError(kind string, what string) error {
 }
 
 // ---------------------------------------------------------------------------
+// boundary values of unsigned 64-bit inputs
+
+// boundaries are the classes every numeric input whose decoder admits the full uint64 range is
+// drawn from; the extremes are listed more than once so that one list of values often holds
+// several different ones (spans that wrap, sums that overflow).
+var boundaries = []uint64{0, 0, 0, 1, 2, 7, 100, 1<<31 - 1, 1 << 31, 1<<31 + 1, 1<<32 - 1, 1 << 32, 1<<32 + 1,
+	1<<63 - 1, 1<<63 - 1, 1 << 63, 1 << 63, ^uint64(0) - 1, ^uint64(0), ^uint64(0), ^uint64(0)}
+
+func genU64(t *rapid.T, label string) uint64 { return rapid.SampledFrom(boundaries).Draw(t, label) }
+
+// boundaryStrings are the same classes (and the first values beyond the range) as decimal text.
+var boundaryStrings = []string{"0", "1", "2", "100", "2147483647", "2147483648", "2147483649", "4294967295", "4294967296", "4294967297",
+	"9223372036854775807", "9223372036854775808", "18446744073709551614", "18446744073709551615", "18446744073709551616", "-1"}
+
+// ---------------------------------------------------------------------------
 // small helpers
 
 func hexOf(b []byte) string { return fmt.Sprintf("%#x", b) }
